@@ -162,7 +162,8 @@ func C06(c *core.Ctx) {
 				return false
 			}
 			fn := core.Callee(pinfo, cl)
-			if fn == nil || fn.Pkg() == nil || fn.Pkg().Path() != "strings" || fn.Name() != "TrimSuffix" {
+			// strings.TrimSuffix(in, "%"), or the first result of strings.CutSuffix(in, "%")
+			if fn == nil || fn.Pkg() == nil || fn.Pkg().Path() != "strings" || (fn.Name() != "TrimSuffix" && fn.Name() != "CutSuffix") {
 				return false
 			}
 			sfx, ok := foldString(pinfo, cl.Args[1])
@@ -234,7 +235,7 @@ func C06(c *core.Ctx) {
 		for _, call := range calls {
 			arg := ast.Unparen(call.Args[0])
 			if v := core.VarOf(pinfo, arg); v != nil && v != in {
-				if ds := ld.All(v); len(ds) == 1 && ds[0].RHS != nil {
+				if ds := ld.All(v); len(ds) == 1 && ds[0].RHS != nil && ds[0].Idx == 0 {
 					arg = ast.Unparen(ds[0].RHS)
 				}
 			}
@@ -537,7 +538,8 @@ func C06(c *core.Ctx) {
 			if !ok || len(as.Lhs) != 1 || len(as.Rhs) != 1 {
 				return true
 			}
-			if v := core.VarOf(sinfo, as.Lhs[0]); v == nil || core.TypeString(v.Type()) != "string" {
+			// a string local, or a string member of a local struct of parts
+			if t := sinfo.TypeOf(as.Lhs[0]); t == nil || core.TypeString(t) != "string" {
 				return true
 			}
 			if s, ok := foldString(sinfo, as.Rhs[0]); ok {
